@@ -127,8 +127,70 @@ def note_off_ends_one(ctx, rule):
     ctx.ob(rule, fi, fn, False, why, construct=cons, unknown=why)
 
 
+def chord_symbols_all_read(ctx, rule):
+  """Location-independent: the chord extractor reads *every* chord-symbol annotation, "N.C." included - a no-chord symbol after a
+  chord is what ends that chord.  The selection of the annotations may test their type (and position), never their text."""
+  fi = ctx.func('chords_lib:ChordProgression.from_quantized_sequence')
+  fn = fi.node
+  cons = 'every chord-symbol annotation takes part in the extraction, whatever its text'
+  n = 0
+  for c in ast.walk(fn):
+    if isinstance(c, (ast.ListComp, ast.GeneratorExp)) and norm_text(c.generators[0].iter).endswith('.text_annotations') and isinstance(c.generators[0].target, ast.Name):
+      v = c.generators[0].target.id
+      n += 1
+      on_text = [f for f in c.generators[0].ifs if any(isinstance(x, ast.Attribute) and x.attr == 'text' and norm_text(x.value) == v for x in ast.walk(f))]
+      ctx.ob(rule, fi, c, not on_text, 'the annotations are selected by type only' if not on_text else
+             'the chord annotations are selected with %s: an annotation left out by its text (N.C.) no longer ends the chord before it, which is then carried through the no-chord steps' %
+             norm_text(on_text[0]), construct=cons, definite=True)
+  for lp in ast.walk(fn):
+    if isinstance(lp, ast.For) and norm_text(lp.iter).endswith('.text_annotations') and isinstance(lp.target, ast.Name):
+      n += 1
+      v = lp.target.id
+      skips = [st for st in U.walk_stmts(lp) if isinstance(st, ast.Continue) and
+               any(isinstance(x, ast.Attribute) and x.attr == 'text' and norm_text(x.value) == v for t, _p in U.path_conditions(fn, st, stop_at=lp) for x in ast.walk(t))]
+      ctx.ob(rule, fi, skips[0] if skips else lp, not skips, 'no annotation is skipped because of its text' if not skips else
+             'an annotation is skipped depending on its text: a N.C. symbol no longer ends the chord before it', construct=cons, definite=True)
+  if n == 0:
+    why = 'cannot classify: how ChordProgression.from_quantized_sequence selects the chord annotations is not recognised'
+    ctx.ob(rule, fi, fn, False, why, construct=cons, unknown=why)
+
+
+def melody_note_per_onset(ctx, rule):
+  """Location-independent: Melody.to_sequence writes one note per pitch event.  The notes must be created while walking the events
+  themselves; creating them from runs of a derived per-step sequence (itertools.groupby over "the pitch sounding on each step")
+  merges a pitch that is struck twice in a row into one note, and the second onset is lost on the way back."""
+  fi = ctx.func('melodies_lib:Melody.to_sequence')
+  fn = fi.node
+  cons = 'one rendered note per pitch event of the melody'
+  adds = [c for c in U.calls_in(fn) if isinstance(c.func, ast.Attribute) and c.func.attr == 'add' and norm_text(c.func.value).endswith('.notes')]
+  if not adds:
+    why = 'cannot classify: Melody.to_sequence adds no note'
+    ctx.ob(rule, fi, fn, False, why, construct=cons, unknown=why)
+    return
+  for c in adds:
+    loops = [lp for lp in U.enclosing_loops(fn, c) if isinstance(lp, ast.For)]
+    if not loops:
+      why = 'cannot classify: a note is added outside any loop'
+      ctx.ob(rule, fi, c, False, why, construct=cons, unknown=why)
+      continue
+    it = U.expand_locals(fn, loops[-1].iter, at=loops[-1])
+    src = it
+    while isinstance(src, ast.Call) and dotted(src.func) in ('enumerate', 'list', 'iter', 'zip') and src.args:
+      src = src.args[0] if dotted(src.func) != 'zip' else next((a for a in src.args if norm_text(a) in ('self', 'self._events')), src.args[0])
+    if norm_text(src) in ('self', 'self._events'):
+      ctx.ob(rule, fi, c, True, 'notes are created while walking the events', construct=cons)
+    elif any(isinstance(x, ast.Call) and (dotted(x.func) or '').endswith('groupby') for x in ast.walk(it)):
+      ctx.ob(rule, fi, c, False, 'notes are created per run of %s: two consecutive events of the same pitch (a note struck again without a NOTE_OFF in between) fall into one run and are '
+             'rendered as one long note' % norm_text(loops[-1].iter)[:70], construct=cons, definite=True)
+    else:
+      why = 'cannot classify: notes are created while walking %s, not the events themselves' % norm_text(loops[-1].iter)[:70]
+      ctx.ob(rule, fi, c, False, why, construct=cons, unknown=why)
+
+
 def run(ctx):
   from rules import C07, C09
+  chord_symbols_all_read(ctx, 'EXTRACT/chord-symbols-all-read')
+  melody_note_per_onset(ctx, 'RENDER/melody-note-per-onset')
   note_off_ends_one(ctx, 'RENDER/note-off-ends-one')
   from sa import pitfalls
   scope = []
